@@ -87,7 +87,7 @@ class BasicPromise::Transformer<Task<T>> {
  public:
   inline static Task<T>&& await_transform(BasicPromise& promise,
                                           Task<T>&& task) {
-    if (!task.executor()) {
+    if (!task.executor() && promise.executor()) {
       task.set_executor(*promise.executor());
     }
     return ::std::move(task);
